@@ -573,7 +573,7 @@ def aggregate(pid, mod, tier, seed, results, t0, extra=None, replay=False):
                                                                       viol_counts[key]))
     replay_paths = []
     if new:
-        rdir = os.path.join(ROOT, "replays", pid)
+        rdir = os.path.join(ROOT, "replays", pid) if REPO == "/repo" else os.path.join(CACHE, "replays_scratch", pid)
         os.makedirs(rdir, exist_ok=True)
         for key, vs in new.items():
             v = vs[0]
